@@ -7,7 +7,7 @@
    abs g  : the labelled tree it denotes (None if the graph below the root is not a tree of mapped clones);
    fresh  : every payload rebuilt from the data lists, r bottom-up (Model/LTree.v). *)
 From PV Require Import Model.LTree Model.LTreeConv Model.DictForm Model.TraceLoop.
-From PV Require Import Proofs.LTreeBase Proofs.LTreeCons Proofs.LTreeCache Proofs.DictFormProofs Proofs.TraceLoopProofs.
+From PV Require Import Proofs.LTreeBase Proofs.LTreeCons Proofs.LTreeCache Proofs.DictFormProofs Proofs.DictFormEdits Proofs.TraceLoopProofs.
 Open Scope nat_scope.
 
 (* for every well-formed index-level state - with or without holes, with or without clones - and every
@@ -49,6 +49,16 @@ Proof.
   unfold fresh, set_root. rewrite H3. reflexivity.
 Qed.
 Print Assumptions C15_roundtrip_outlier_only.
+
+(* in every case the restored tree can be edited further exactly like the original: it equals the original up
+   to the virtual root's vector of a clone-less tree (eqv), and every history of grammar edits raises on both
+   or on neither and leads to results that are again equal in that sense *)
+Theorem C15_restored_edits_like_original : forall Sf prior vone g t (es : list edit),
+  gwf g -> abs g = Some t -> cache_ok Sf prior t ->
+  exists t', from_dict Sf prior vone (to_dict g) = Some t' /\ eqv t' t
+             /\ eqv_opt (run Sf prior vone es t') (run Sf prior vone es t).
+Proof. exact restored_edits_like_original. Qed.
+Print Assumptions C15_restored_edits_like_original.
 
 (* the trace: entry 0 is the post-burn-in state recorded with iter 0; then exactly the iterations i < m with
    i mod thin = 0, increasing, where m <= num_iters is the number of iterations run (no stop before the last
